@@ -174,14 +174,19 @@ def fold_index_loops(tree):
         n.body = rest
 
 
-def canonicalise(tree):
+def canonicalise(tree, inline=True):
+    from . import inline as _inline
+
     c = Canon()
     tree = c.visit(tree)
     drop_pass(tree)
-    fold_index_loops(tree)
     for f in ast.walk(tree):
         if isinstance(f, (ast.FunctionDef, ast.AsyncFunctionDef)):
             c.fold_returns(f)
+    tree = _inline.apply(tree, helpers=inline)          # N8 helper inlining (optional), N5b early-return guards, N9 alias selection
+    fold_index_loops(tree)
+    for f in ast.walk(tree):
+        if isinstance(f, (ast.FunctionDef, ast.AsyncFunctionDef)):
             unfold_guards(f)
     ast.fix_missing_locations(tree)
     return tree
